@@ -137,6 +137,13 @@ def run_shard(spec, ctx):
                     case = oracle.expect_error(oracle.single(line + "\n\t.word\n\t.list\n"), ["value-out-of-bounds"])
                     for sig, msg in oracle.check_expect(case, prefix="codes-then-warning:"):
                         ctx.fail(sig, f"{line!r} followed by a warning-only statement: {msg}", case)
+        # the <n> code computed from '.' inside a .repeat: every copy packs its own value
+        for text, words in (("tab:\t.repeat 6 { .rad50 /f/<<.-tab>/2+36> }\n", [codecs.rad50_pack("F" + str(i))[0] for i in range(6)]),
+                            ("tab:\t.repeat 5 { .word ^RAB0+<<.-tab>/2> }\n", [codecs.rad50_pack("AB" + str(i))[0] for i in range(5)])):
+            ctx.case(text, True, ["code-from-dot-in-repeat"], sample=text)
+            case = oracle.expect_ok(oracle.single(text), codecs.words_le(words))
+            for sig, msg in oracle.check_expect(case, prefix="repeat-codes:"):
+                ctx.fail(sig, f"{text!r}: {msg}", case)
         for line, ident in [(".word ^R", "invalid-string"), (".word ^RABCD", "invalid-string"),
                             (".word ^RABCDE", "invalid-string"), (".word ^Rabcd", "invalid-string")]:
             ctx.case(line, True, ["caret-reject"], sample=line)
@@ -226,7 +233,8 @@ def run_shard(spec, ctx):
                 chunks.append(quote + cur + quote)
             if not chunks:
                 chunks = [quote + quote]
-            line = ".rad50 " + " ".join(chunks)
+            seps = [" ", "\t", "", " \t "]
+            line = ".rad50 " + "".join(c + (seps[(len(c) + i) % len(seps)] if i + 1 < len(chunks) else "") for i, c in enumerate(chunks))
             labels = ["random-" + ("reject" if bad_char or bad_code else "ok"), f"len{min(len(items), 12) // 4 * 4}+"]
             ctx.case(line, True, labels, sample=line)
             v0 = oracle.single(line + "\n")
